@@ -476,6 +476,17 @@ pub fn alphabet(m: &Model, cfg: &Config, p: &Profile) -> Vec<Op> {
             }
             targets.push((s + len, 0));
             targets.push((s / 64 * 64 + 64, 6));
+            // blocks of the multi-row orders around the held block (partially used rows)
+            for o in [6usize, 7, 8] {
+                if o < HUGE_ORDER {
+                    let b = s & !((1usize << o) - 1);
+                    targets.push((b, o));
+                    targets.push((b + (1 << o), o));
+                    if b >= 1 << o {
+                        targets.push((b - (1 << o), o));
+                    }
+                }
+            }
         }
         for (f, o) in targets {
             if !m.in_range(f, o) {
